@@ -16,6 +16,7 @@ CONSTANTS
     MaxSpans = 3
     IncomingKinds <- MC_IncAll
     WithLazy = FALSE
+    CtxForms <- MC_Forms
     Emit = TRUE
 VIEW sview
 INVARIANTS InnermostWins NoTrace StackOK FrameIds AmbientIds OneTrace ParentIsEnclosing EventCarriesInnermost IdsDistinct
